@@ -519,6 +519,33 @@ class RecBadBefore:
 class HoldsRecBad:
     u: Union[str, RecBadAfter] = ""
     v: Union[RecBadBefore, int] = 0
+# a child of a discriminated class met before its parent, and a child referring back to the parent
+@dataclass
+class ChildFirst:
+    c: CatD
+    p: PetD
+@dataclass
+class ParentFirst:
+    p: PetD
+    c: CatD
+@discriminator("kind")
+@dataclass
+class RPet:
+    t: int = 0
+@dataclass
+class RCat(RPet):
+    a: int = 0
+@dataclass
+class RDog(RPet):
+    friend: Optional[RPet] = None
+@type_name("SameAB")
+@dataclass
+class SameA:
+    x: int = 0
+@type_name("SameAB")
+@dataclass
+class SameB:
+    y: str = ""
 # serialized methods with their own conversion: the references are those of the conversion target
 @dataclass
 class SPoint:
@@ -566,6 +593,10 @@ class HoldsPages:
     p2: Page[list[int]]
     p3: List[Page[Sequence[int]]]
 EXPECT = {
+    "ChildFirst": (ChildFirst, {"PetD", "CatD", "DogD"}, {"ChildFirst", "PetD", "CatD", "DogD"}),
+    "ParentFirst": (ParentFirst, {"PetD", "CatD", "DogD"}, {"ParentFirst", "PetD", "CatD", "DogD"}),
+    "RDog": (RDog, {"RPet", "RCat", "RDog"}, {"RPet", "RCat", "RDog"}),
+    "RPet": (RPet, {"RPet", "RCat", "RDog"}, {"RPet", "RCat", "RDog"}),
     "Segment": (Segment, {"SPointView"}, {"Segment", "SPointView"}, "ser"),
     "Document": (Document, {"NodeView"}, {"Document", "NodeView"}, "ser"),
     "HoldsSpellings": (HoldsSpellings, {"StrIntMap"}, {"HoldsSpellings", "StrIntMap"}),
@@ -597,6 +628,7 @@ EXPECT = {
     "HoldsNamed": (HoldsNamed, {"IntList"}, {"HoldsNamed", "IntList"}),
 }
 REFUSED = {"Clash": (Clash, ValueError), "NamelessRec": (NamelessRec, TypeError)}
+REFUSED_BOTH = {"SameAB": (SameA, SameB, ValueError)}
 '''
 
 
@@ -640,7 +672,20 @@ def run_worlds(st: infra.Stats):
                     pass
                 except Exception as e:
                     st.violation({"label": "world:" + name, "signature": {"kind": "wrong_refusal", "world": name, "exc": type(e).__name__}, "what": f"{name}: raised {e!r} instead of {exc.__name__}"[:300]})
-    st.count("worlds", len(mod.EXPECT) + len(mod.REFUSED))
+    # two distinct types sharing a name, one on each side of definitions_schema
+    for name, (t1, t2, exc) in mod.REFUSED_BOTH.items():
+        for all_refs in (False, True):
+            for kw in ({"deserialization": [t1], "serialization": [t2]}, {"deserialization": [t2], "serialization": [t1]}, {"deserialization": [t1, t2]}, {"serialization": [t2, t1]}):
+                st.case("world-refused-both", name, all_refs, tuple(kw))
+                try:
+                    d = definitions_schema(all_refs=all_refs, **kw)
+                    if all_refs or len(kw) == 1:
+                        st.violation({"label": "world:" + name, "signature": {"kind": "not_refused", "world": name, "sides": sorted(kw)}, "what": f"{name}: definitions_schema({sorted(kw)}, all_refs={all_refs}) merged two distinct types sharing a name: {json.dumps(d)[:300]}"})
+                except exc:
+                    pass
+                except Exception as e:
+                    st.violation({"label": "world:" + name, "signature": {"kind": "wrong_refusal", "world": name, "exc": type(e).__name__}, "what": f"{name}: raised {e!r} instead of {exc.__name__}"[:300]})
+    st.count("worlds", len(mod.EXPECT) + len(mod.REFUSED) + len(mod.REFUSED_BOTH))
 
 
 def work(tier, widx, nworkers, st, extra):
